@@ -40,11 +40,16 @@ type plan struct {
 	Req    string // none | all | part | ignore | close | partclose
 	ReqN   int64
 	ReadSz int
+	// ConnClose: the handler answers with "Connection: close", which makes the
+	// server start a graceful shutdown (GOAWAY NO_ERROR) when the response
+	// header is written (family goaway)
+	ConnClose bool
 
 	start      chan struct{} // handler waits for it before touching the request body
 	finish     chan struct{} // handler waits for it before writing the response
 	bodyClosed chan struct{} // closed by the handler once it has closed the request body
 	done       chan struct{} // closed when the handler returns
+	readDone   chan struct{} // when set: closed by the handler when it is done with the request body
 
 	read  int64 // request body bytes the handler read
 	badAt int64 // first offset with wrong content (-1: none)
@@ -129,7 +134,13 @@ func (r *srig) handler(w http.ResponseWriter, req *http.Request) {
 		req.Body.Close()
 		close(pl.bodyClosed)
 	}
+	if pl.readDone != nil {
+		close(pl.readDone)
+	}
 	gate(pl.finish)
+	if pl.ConnClose {
+		w.Header().Set("Connection", "close")
+	}
 	if pl.Req != "" && pl.Req != "none" {
 		w.Header().Set("X-Read", strconv.FormatInt(pl.read, 10))
 		w.Header().Set("X-Bad", strconv.FormatInt(pl.badAt, 10))
@@ -264,6 +275,11 @@ func (r *srig) shutdown() {
 
 type tcfg struct {
 	IW0, MFS0 int64
+	// MaxStreams > 0: the scripted server advertises SETTINGS_MAX_CONCURRENT_STREAMS
+	MaxStreams int64
+	// Strict: Transport.StrictMaxConcurrentStreams (requests wait for a slot on
+	// this connection instead of failing over; family parked)
+	Strict bool
 }
 
 // treq is one request issued through the transport.
@@ -355,7 +371,7 @@ func newTrigWrap(cfg tcfg, wrap func(net.Conn) net.Conn) (*trig, error) {
 		s = wrap(s)
 	}
 	r := &trig{byIdx: map[int]uint32{}, seen: map[uint32]bool{}, dead: make(chan struct{})}
-	r.tr = &fork.Transport{AllowHTTP: true, DisableCompression: true}
+	r.tr = &fork.Transport{AllowHTTP: true, DisableCompression: true, StrictMaxConcurrentStreams: cfg.Strict}
 	type res struct {
 		cc  *fork.ClientConn
 		err error
@@ -381,6 +397,9 @@ func newTrigWrap(cfg tcfg, wrap func(net.Conn) net.Conn) (*trig, error) {
 	}
 	if cfg.MFS0 >= 0 {
 		ss = append(ss, http2.Setting{ID: http2.SettingMaxFrameSize, Val: uint32(cfg.MFS0)})
+	}
+	if cfg.MaxStreams > 0 {
+		ss = append(ss, http2.Setting{ID: http2.SettingMaxConcurrentStreams, Val: uint32(cfg.MaxStreams)})
 	}
 	if err := r.l.Settings(ss...); err != nil {
 		p.Close()
